@@ -274,6 +274,9 @@ func c13Run(c lib.Case, env *lib.Env) lib.Result {
 			// the patcher's pattern: WantSave, then PopCheckpoint, then ReadMessage - but only when its
 			// consumer wants to save, so a pop may come several messages after the checkpoint was made
 			popNow := s.PopEvery <= 1 || i%s.PopEvery == 0 || i == n
+			if i == n && (c.ID+pi)%2 == 0 {
+				popNow = false // this consumer saves when it is done: the last pop comes AFTER end-of-stream was reported
+			}
 			var cp *wire.MessageReaderCheckpoint
 			if popNow {
 				cp = rctx.PopCheckpoint()
@@ -300,10 +303,18 @@ func c13Run(c lib.Case, env *lib.Env) lib.Result {
 			}
 			res.Add("messages_compared", 1)
 		}
+		rctx.WantSave() // asked once more, so that a checkpoint can arrive while end-of-stream is discovered
 		extra := &pwr.SyncOp{}
 		if err := rctx.ReadMessage(extra); !isEOF(err) {
 			res.Violate("no-eof-after-last-message", desc, fmt.Sprintf("pass %d: ReadMessage after the last message returned %v", pi, err))
 			return res
+		}
+		// a consumer that saves when it is done: pop once more AFTER end-of-stream was reported
+		if cp := rctx.PopCheckpoint(); cp != nil {
+			if enc := encode(cp); enc != nil {
+				cps = append(cps, cpRec{next: n, enc: enc})
+				res.Add("checkpoints_popped_after_end_of_stream", 1)
+			}
 		}
 		for k := range cps {
 			if cps[k].held != nil {
@@ -361,6 +372,64 @@ func c13Run(c lib.Case, env *lib.Env) lib.Result {
 					}
 				}
 				res.Add("resumes_of_a_source_already_read_to_its_end", 1)
+			}
+		}
+	}
+	// a reader that is itself rewound: saves are requested while some messages are read WITHOUT popping, then the same
+	// reader is resumed from an earlier checkpoint and read to the end with pops at every boundary
+	if len(cps) > 0 && n >= 3 && len(stream) < 3*lib.MB {
+		early := cps[0]
+		for _, cp := range cps {
+			if cp.next <= n/2 && cp.next > early.next {
+				early = cp
+			}
+		}
+		mc := &wire.MessageReaderCheckpoint{}
+		if early.enc != nil && gob.NewDecoder(bytes.NewReader(early.enc)).Decode(mc) == nil {
+			if rctx, err := c13Open(stream); err == nil {
+				reuse := &reusedMsgs{}
+				ok := true
+				for i := 0; i < n && i < early.next+3 && ok; i++ {
+					if i > early.next {
+						rctx.WantSave() // the checkpoint the reader ends up holding is from a LATER position than the rewind target
+					}
+					got := reuse.like(msgs[i])
+					if err := rctx.ReadMessage(got); err != nil || !proto.Equal(got, msgs[i]) {
+						ok = false // judged by the passes above
+					}
+				}
+				if ok {
+					if err := rctx.Resume(mc); err != nil {
+						res.Violate("rewound-reader:resume-error", desc, fmt.Sprintf("same reader resumed before message %d: %v", early.next, err))
+						ok = false
+					}
+				}
+				for i := early.next; ok && i <= n; i++ {
+					rctx.WantSave()
+					if cp := rctx.PopCheckpoint(); cp != nil {
+						if enc := encode(cp); enc != nil {
+							cps = append(cps, cpRec{next: i, enc: enc})
+							res.Add("checkpoints_popped_from_a_rewound_reader", 1)
+						}
+					}
+					if i == n {
+						break
+					}
+					got := reuse.like(msgs[i])
+					if err := rctx.ReadMessage(got); err != nil {
+						res.Violate("rewound-reader:read-error", desc, fmt.Sprintf("same reader resumed before message %d, reading message %d of %d: %v", early.next, i, n, err))
+						ok = false
+					} else if !proto.Equal(got, msgs[i]) {
+						res.Violate("rewound-reader:read-mismatch", desc, fmt.Sprintf("same reader resumed before message %d: message %d of %d differs", early.next, i, n))
+						ok = false
+					}
+				}
+				if ok {
+					if err := rctx.ReadMessage(&pwr.SyncOp{}); !isEOF(err) {
+						res.Violate("rewound-reader:no-eof", desc, fmt.Sprintf("after the last message got %v", err))
+					}
+				}
+				res.Add("readers_rewound_and_read_to_the_end", 1)
 			}
 		}
 	}
@@ -435,7 +504,7 @@ func init() {
 	lib.Register(&lib.Property{
 		ID:          "C13",
 		Level:       "exploration",
-		Rule:        "message sequences (SyncOp/SyncHeader/Control/BlockHash; payload sizes from {0,1,127,128,16383,16384,32764..32771,65535..65537,1M-1,1M,1M+1,4M,4M+1}; patterns boundary-mix, large-then-small, growing across every power of two, all-empty, many-small, huge, types) written through wire.WriteContext + pwr.CompressWire under every registered setting (NONE; GZIP -2..9; BROTLI 0..11) and read back through DecompressWire + ReadContext; save schedules every / every 2nd / every 7th message and, for sequences <= 64 messages, one pass per message boundary with a single save request there; every popped checkpoint is gob round-tripped and resumed in a brand-new reader over the same bytes and must deliver exactly the remaining messages then EOF (in odd cases the popped checkpoint objects are held and only serialized after the whole pass); the source that was read to its end is then resumed again through a new reader - from nil and from the first/middle/last checkpoint - and must deliver the same; one >= 44 MiB sequence per slow-checkpointing class. ASan pass over the brotli settings (C encoder). distinct = distinct (pattern, setting, save schedule)",
+		Rule:        "message sequences (SyncOp/SyncHeader/Control/BlockHash; payload sizes from {0,1,127,128,16383,16384,32764..32771,65535..65537,1M-1,1M,1M+1,4M,4M+1}; patterns boundary-mix, large-then-small, growing across every power of two, all-empty, many-small, huge, types) written through wire.WriteContext + pwr.CompressWire under every registered setting (NONE; GZIP -2..9; BROTLI 0..11) and read back through DecompressWire + ReadContext; save schedules every / every 2nd / every 7th message and, for sequences <= 64 messages, one pass per message boundary with a single save request there; every popped checkpoint is gob round-tripped and resumed in a brand-new reader over the same bytes and must deliver exactly the remaining messages then EOF (in odd cases the popped checkpoint objects are held and only serialized after the whole pass); the source that was read to its end is then resumed again through a new reader - from nil and from the first/middle/last checkpoint - and must deliver the same; a pop after end-of-stream was reported, and the pops of a reader that was itself rewound (saves requested but not popped, then Resume from an earlier checkpoint on the same reader) are verified the same way; one >= 44 MiB sequence per slow-checkpointing class. ASan pass over the brotli settings (C encoder). distinct = distinct (pattern, setting, save schedule)",
 		Assumptions: []string{"WantSave/PopCheckpoint are driven in the patcher's pattern (request, pop, read)", "compressed sources only checkpoint at block boundaries: a sequence that pops no checkpoint is counted, not failed, except on the purpose-sized sequences"},
 		Flavors:     func(tier string) []string { return []string{"plain", "asan"} },
 		Cases:       c13Cases,
